@@ -128,13 +128,24 @@ theorem remove_rev (w : Wantlist) (k : Nat) :
   · right; rw [remove_revision]; simp [hk]
   · left; exact remove_of_not_mem w k hk
 
-theorem ginv_sending (x : GSys) (h : GInv x) (p : Nat) (st : Sending) : GInv (gstep x (.sending p st)).1 := by
+theorem ginv_sending (x : GSys) (h : GInv x) (p src : Nat) (st : Sending) :
+    GInv (gstep x (.sending p src st)).1 := by
+  by_cases ht : tracksOther x.sys.s p src = true
+  · -- the report comes from a connection that was given up: ignored
+    have hs : (step x.sys (.sending p src st)).1.s = x.sys.s := by
+      show sendingChanged x.sys.s p src st = x.sys.s
+      unfold sendingChanged; rw [if_pos ht]
+    exact ginv_quiet x h _ (fun _ => rfl) (by rw [hs]) (fun _ hj => by rw [hs] at hj; exact hj)
+      (.inl (by rw [hs])) (by rw [hs]; exact h.queue_nosend)
+  have hsc : sendingChanged x.sys.s p src st = setSending x.sys.s p st := by
+    unfold sendingChanged; rw [if_neg ht]
   rw [gstep_eq]
   apply ginv_of_tab
   · intro q ps' hps'
-    show PeerInv (sendingChanged x.sys.s p st) ps' (base x q) ∧ _
-    change (sendingChanged x.sys.s p st).peers[q]? = some ps' at hps'
-    unfold sendingChanged at hps' ⊢
+    show PeerInv (sendingChanged x.sys.s p src st) ps' (base x q) ∧ _
+    change (sendingChanged x.sys.s p src st).peers[q]? = some ps' at hps'
+    rw [hsc] at hps' ⊢
+    unfold setSending at hps' ⊢
     cases hp : x.sys.s.peers[p]? with
     | none =>
       simp only [hp] at hps' ⊢
@@ -151,16 +162,14 @@ theorem ginv_sending (x : GSys) (h : GInv x) (p : Nat) (st : Sending) : GInv (gs
       · simp only [hq, if_false] at hps'
         exact ⟨peerInv_carry h (fun _ hj => hj) (.inl rfl) (.inl ⟨ps', hps', rfl⟩),
           h.conns_nonempty q ps' hps'⟩
-  · show (sendingChanged x.sys.s p st).wantlist.revision = 0 → ∀ k, k ∉ (sendingChanged x.sys.s p st).wantlist.cids
-    have : (sendingChanged x.sys.s p st).wantlist = x.sys.s.wantlist := by
-      unfold sendingChanged; split <;> rfl
+  · show (sendingChanged x.sys.s p src st).wantlist.revision = 0 → ∀ k, k ∉ (sendingChanged x.sys.s p src st).wantlist.cids
+    have : (sendingChanged x.sys.s p src st).wantlist = x.sys.s.wantlist := by
+      rw [hsc]; unfold setSending; split <;> rfl
     rw [this]; exact h.rev_zero
-  · show ∀ p' c' m, Out.send p' c' m ∉ (sendingChanged x.sys.s p st).queue
-    have : (sendingChanged x.sys.s p st).queue = x.sys.s.queue := by
-      unfold sendingChanged; split <;> rfl
+  · show ∀ p' c' m, Out.send p' c' m ∉ (sendingChanged x.sys.s p src st).queue
+    have : (sendingChanged x.sys.s p src st).queue = x.sys.s.queue := by
+      rw [hsc]; unfold setSending; split <;> rfl
     rw [this]; exact h.queue_nosend
-
-
 
 theorem ginv_msg (x : GSys) (h : GInv x) (p : Nat) (hs ds : List Nat) (bs : List (Nat × Nat)) :
     GInv (gstep x (.msg p hs ds bs)).1 := by
@@ -276,7 +285,7 @@ theorem ginv_step' (x : GSys) (op : Op) (h : GInv x) : GInv (gstep x op).1 := by
     show ∀ p c m, Out.send p c m ∉ ((complete x.sys.s n r).getD x.sys.s).queue
     rw [g3]; exact h.queue_nosend
   | msg p hs ds bs => exact ginv_msg x h p hs ds bs
-  | sending p st => exact ginv_sending x h p st
+  | sending p src st => exact ginv_sending x h p src st
   | tick ms => exact ginv_quiet x h _ (fun _ => rfl) rfl (fun _ hj => hj) (.inl rfl) h.queue_nosend
   | drain pref => exact ginv_drain x h pref
   | takeNewBlocks =>
